@@ -104,7 +104,7 @@ def gen_pipeline_cases(ctx):
                 yield {'part': 'pipeline', 'kinds': list(kinds),
                        'data': {'value': idx % 5, 'x': 'y'}, 'as': ('list', 'tuple', 'single')[idx % 3],
                        'enum': True}
-    for _ in range(150 if ctx.tier == 'quick' else 4000):
+    for _ in range(150 if ctx.tier == 'quick' else 40000):
         kinds = [rng.choice(FKINDS) for _ in range(3)]
         data = {k: rng.choice([0, 1, None, 'v', (1,)]) for k in rng.sample(
             ['value', 'previous', 'x', 'extra', 'trigger'], rng.randrange(0, 5))}
@@ -264,7 +264,7 @@ def run_edge(case, ctx):
 
 def delta_cases(ctx):
     rng = ctx.rng('delta')
-    for _ in range(60 if ctx.tier == 'quick' else 3000):
+    for _ in range(60 if ctx.tier == 'quick' else 30000):
         floats = rng.random() < 0.5
         delta = rng.choice([0, 1, 2, 5, 0.5, 2.5, 0.1]) if floats else rng.choice([0, 1, 2, 3, 10])
         walk = []
